@@ -27,13 +27,13 @@ Proof. exact first_search_result. Qed.
 
 (* ... and a further search from a history line still searches for the line that was being
    entered (t, cut at p): a matching stored entry, or the buffer stays, or - forward, nothing
-   newer matches - undo takes the buffer back *)
+   newer matches - the buffer is the line that was being entered again *)
 Theorem C09_later_search_puts_a_matching_entry_or_nothing : forall e fwd regex t p r e', hpos e <> -1 -> saved e = (t, p) :: r ->
   h_insert_match e fwd regex = Ok e' ->
   (line e' = line e /\ (hpos e' = hpos e \/ hpos e' = -1))
   \/ (exists q, 0 <= q < zlen (hist e) /\ line e' = nth (Z.to_nat q) (hist e) [] /\ hpos e' = zlen (hist e) - q /\
                 matches regex (search_key t p) (nth (Z.to_nat q) (hist e) []) = true)
-  \/ (fwd = true /\ -1 < hpos e /\ h_undo (set_hist e (-1) (hcpos e)) = Ok e').
+  \/ (fwd = true /\ -1 < hpos e /\ line e' = t /\ hpos e' = -1).
 Proof. exact later_search_result. Qed.
 
 Theorem C09_prefix_match_is_a_prefix : forall cline entry,
